@@ -195,6 +195,8 @@ class SymTab:
             taint = frozenset()
             for t, _ in f.terms:
                 taint |= self.syms[t].taint
+            # NB: the symbol is shared by all paths: its static range must hold on every path (lo/hi are the
+            # caller's type-derived bounds, never the current path's interval)
             s = self.new(f"({show_form(f)})/{c}", lo, hi, 'div', (f, c), taint=taint)
             self.cons[k] = s
             for t, _ in f.terms:
